@@ -634,6 +634,7 @@ pub fn model_cfg(cfg: &StoreCfg, effective_format: u32) -> crate::model::ModelCf
         max_memory: cfg.max_memory,
         overhead: FeoxStore::verif_record_overhead(),
         sweeper: cfg.sweeper.is_some() && cfg.ttl,
+        sees_all_calls: false,
     }
 }
 
